@@ -35,6 +35,9 @@ type decCase struct {
 	N    int    `json:"n"`    // PRNG mutations per encoding
 	Full bool   `json:"full"` // systematic families (truncations, per-byte flips, type-byte sweep)
 }
+type streamCase struct {
+	Src string `json:"src"`
+}
 type rawCase struct {
 	B64 []string `json:"b64"`
 }
@@ -182,6 +185,27 @@ func genCases(g *fw.GenCtx) {
 	}
 	for _, s := range srcs {
 		g.Emit("rt", s)
+	}
+	// streams: whole seed files (not cut into pieces) and long files whose frames slide over every
+	// alignment with respect to the decoder's 4096-byte read buffer, decoded through readers that
+	// deliver the bytes in every legal chunking (an io.Reader may return fewer bytes than asked for:
+	// a plugin reads its request from a pipe)
+	for _, s := range sd {
+		if len(s.Text) < 200000 && !strings.Contains(s.Name, "snippet.vcl") {
+			g.Emit("stream", streamCase{Src: s.Text})
+		}
+	}
+	sr := rand.New(rand.NewSource(g.Seed*1000003 + 19)) // own stream: the other families keep their draws
+	for pad := 0; pad < g.Pick(48, 640); pad++ {
+		var sb strings.Builder
+		fmt.Fprintf(&sb, "sub pad { log \"%s\"; }\n", strings.Repeat("p", pad))
+		limit := 2600 + sr.Intn(g.Pick(4000, 30000))
+		for sb.Len() < limit {
+			p := gen.New(rand.New(rand.NewSource(sr.Int63())), gen.Opts{MaxDepth: 2, Decls: 2}).Program()
+			sb.WriteString(render.Canonical(p.Toks))
+			sb.WriteString("\n")
+		}
+		g.Emit("stream", streamCase{Src: sb.String()})
 	}
 	srcs = srcs[:nForcedAndSeeds+g.Pick(40, 400)]
 	// decoder totality: systematic families on a subset, PRNG mutations on all
@@ -448,6 +472,10 @@ func run(c fw.Case) fw.Outcome {
 		var dc decCase
 		json.Unmarshal(c.Data, &dc)
 		runDec(&oc, dc)
+	case "stream":
+		var sc streamCase
+		json.Unmarshal(c.Data, &sc)
+		runStream(&oc, sc)
 	case "raw":
 		var rc rawCase
 		json.Unmarshal(c.Data, &rc)
@@ -457,6 +485,97 @@ func run(c fw.Case) fw.Outcome {
 		}
 	}
 	return oc
+}
+
+// chunkReader hands out the bytes of b in pieces of at most n bytes (n <= 0: a piece of k%7+1 bytes at the k-th call).
+type chunkReader struct {
+	b []byte
+	n int
+	k int
+}
+
+func (c *chunkReader) Read(p []byte) (int, error) {
+	if len(c.b) == 0 {
+		return 0, io.EOF
+	}
+	n := c.n
+	if n <= 0 {
+		n = c.k%7 + 1
+	}
+	c.k++
+	if n > len(p) {
+		n = len(p)
+	}
+	if n > len(c.b) {
+		n = len(c.b)
+	}
+	copy(p, c.b[:n])
+	c.b = c.b[n:]
+	return n, nil
+}
+
+// runStream: Encodes of a whole file decodes to the file's statements whatever the chunking of the byte stream.
+// Files with a statement that does not round-trip alone are left to the rt family.
+func runStream(oc *fw.Outcome, sc streamCase) {
+	fw.JournalS(sc.Src)
+	top, err := parse(sc.Src, false)
+	if err != nil || len(top) == 0 {
+		oc.Tag("stream:unparseable-seed")
+		return
+	}
+	for _, s := range top {
+		var one []byte
+		var eerr error
+		if p, _, _ := fw.Guard(func() { one, eerr = codec.NewEncoder().Encode(s) }); p || eerr != nil {
+			oc.Tag("stream:skipped-failing-statement")
+			return
+		}
+		out, derr, pk, _ := decodeGuarded(one)
+		if pk != "" || derr != nil || len(out) != 1 || astcmp.Compare(astcmp.Build(s, cmpOpts), astcmp.Build(out[0], cmpOpts)) != nil {
+			oc.Tag("stream:skipped-failing-statement")
+			return
+		}
+	}
+	var bin []byte
+	if p, _, _ := fw.Guard(func() { bin, err = codec.NewEncoder().Encodes(top) }); p || err != nil {
+		oc.Tag("stream:encodes-failed") // judged by the rt family
+		return
+	}
+	bin = append([]byte(nil), bin...)
+	oc.Tag(fmt.Sprintf("stream:bytes<=%d", 4096*((len(bin)+4095)/4096)))
+	for _, n := range []int{1 << 30, 1, 2, 3, 0, 511, 512, 513, 4095, 4096, 4097} {
+		oc.Evals++
+		name := fmt.Sprint(n)
+		if n == 1<<30 {
+			name = "unlimited"
+		} else if n == 0 {
+			name = "1..7"
+		}
+		var out []ast.Statement
+		var derr error
+		p, msg, st := fw.Guard(func() {
+			out, derr = codec.NewDecoder(&budgetReader{r: &chunkReader{b: bin, n: n}}).Decode()
+		})
+		if p {
+			oc.Violate("stream:dec-"+fw.PanicKey(st)+"/chunk="+name, "Decode of a file's encoding panicked when the stream arrives in pieces of "+name+" bytes: "+msg, map[string]any{"source": clip(sc.Src, 400), "encoded_bytes": len(bin)})
+			return
+		}
+		if derr != nil {
+			oc.Violate("stream:decode-failed/chunk="+name, fmt.Sprintf("Encodes of a file (%d bytes) whose statements all round-trip alone does not decode when the stream arrives in pieces of %s bytes: %v", len(bin), name, derr), map[string]any{"source": clip(sc.Src, 400), "encoded_bytes": len(bin)})
+			return
+		}
+		if len(out) != len(top) {
+			oc.Violate("stream:count/chunk="+name, fmt.Sprintf("Encodes of %d statements (%d bytes) decodes to %d when the stream arrives in pieces of %s bytes", len(top), len(bin), len(out), name), map[string]any{"source": clip(sc.Src, 400)})
+			return
+		}
+		for i := range top {
+			if d := astcmp.Compare(astcmp.Build(top[i], cmpOpts), astcmp.Build(out[i], cmpOpts)); d != nil {
+				oc.Violate("stream:"+d.Key()+"/chunk="+name, fmt.Sprintf("file round trip (%d bytes, pieces of %s bytes) differs at [%d]%s: %s vs %s", len(bin), name, i, d.Path, clip(d.A, 120), clip(d.B, 120)), map[string]any{"source": clip(sc.Src, 400)})
+				return
+			}
+		}
+		oc.NonTrivialS(fmt.Sprintf("stream|%s|%d|%x", name, len(bin), fw.Hash64(bin)))
+	}
 }
 
 func runRT(oc *fw.Outcome, rc rtCase) {
